@@ -752,11 +752,18 @@ fn var_call<C: Ck>(geo: &Geo, rot: u8, backing: &mut [u8], pts: &[(i32, i32, u8)
     VarOut { panic: r.err().map(panic_msg), size, exposed, rejected }
 }
 
-fn var_case<C: Ck>(w: u32, h: u32, seed: u64, rep: &mut Report) {
+fn var_case<C: Ck>(w: u32, h: u32, seed: u64, miri: bool, rep: &mut Report) {
     let kind = C::KIND;
     let group = kind.var_group();
     let gh = hash_str(group);
+    // Under Miri a caught panic costs ~0.1 s, so the interpreter pass keeps the full 1..=10 geometry range
+    // but draws the coordinate extremes on five geometries only and ignores bwrbit=true for the colour
+    // types that do not look at it.
+    let do_extremes = !miri || [(1, 1), (2, 3), (8, 8), (9, 4), (10, 10)].contains(&(w, h));
     for bwrbit in [false, true] {
+        if miri && bwrbit && kind != Kind::Tri {
+            continue;
+        }
         let geo = Geo { w, h, kind, bwrbit };
         let total = geo.total();
         let mut backing = vec![SENT; total + TAIL];
@@ -813,7 +820,7 @@ fn var_case<C: Ck>(w: u32, h: u32, seed: u64, rep: &mut Report) {
                     for k in 0..ncol {
                         let ci = (start + k) % ncol;
                         let via_iter = x.wrapping_add(y.wrapping_mul(2)).wrapping_add(k as i32).rem_euclid(5) == 0;
-                        if !sampled && rot == 1 && geo.map(rot, x, y).is_some() && w >= 3 && h >= 2 && x == 1 && y == 1 {
+                        if !sampled && rot == 1 && [(13, 5), (5, 3)].contains(&(w, h)) && x == 1 && y == 1 {
                             sampled = true;
                             let (px, py) = geo.map(rot, x, y).unwrap();
                             let t = geo.target(px, py, ci);
@@ -844,7 +851,7 @@ fn var_case<C: Ck>(w: u32, h: u32, seed: u64, rep: &mut Report) {
                 }
             }
             // coordinate extremes squared
-            let ex = extremes(w, h);
+            let ex = if do_extremes { extremes(w, h) } else { Vec::new() };
             for &y in &ex {
                 for &x in &ex {
                     for ci in 0..ncol {
@@ -904,7 +911,10 @@ fn alias_case(a: &Alias, rot: u8, rows: Option<(u32, u32)>, seed: u64, rep: &mut
         for k in 0..ncol {
             let ci = (start + k) % ncol;
             let via_iter = allow_iter && x.wrapping_add(y.wrapping_mul(3)).wrapping_add(k as i32).rem_euclid(11) == 0;
-            let want_sample = !sampled && x == 5 && y == 0;
+            let want_sample = !sampled
+                && x == 5
+                && y == 0
+                && [("Display7in3f", 1u8), ("Display2in13b", 2), ("Display2in9b", 3), ("Display4in2", 0)].contains(&(a.name, rot));
             let before = if want_sample {
                 geo.map(rot, x, y).map(|(px, py)| {
                     let t = geo.target(px, py, ci);
@@ -1055,6 +1065,11 @@ pub fn run(ctx: &Ctx) -> Report {
         }
         for w in 1..=vmax {
             for h in 1..=vmax {
+                // Miri only: of the VarDisplay<TriColor> geometries inside the known mis-sizing region
+                // (w%8 in 1..=4, thousands of caught panics) keep a 3x3 sample
+                if miri && kind == Kind::Tri && (1..=4).contains(&(w % 8)) && !([1, 4, 9].contains(&w) && [1, 3, 10].contains(&h)) {
+                    continue;
+                }
                 let geo = Geo { w, h, kind, bwrbit: false };
                 let cost = ((w + 7) * (h + 7)) as u64 * 8 * kind.ncol() as u64 * (geo.total() as u64 + 200);
                 cases.push((cost, Case::Var { w, h, kind }));
@@ -1069,9 +1084,9 @@ pub fn run(ctx: &Ctx) -> Report {
     let mut rep = par_run(&cases, threads, |_i, c, rep| match c {
         Case::Alias { ai, rot, rows } => alias_case(&al[*ai], *rot, *rows, seed, rep),
         Case::Var { w, h, kind } => match kind {
-            Kind::Bw => var_case::<Color>(*w, *h, seed, rep),
-            Kind::Tri => var_case::<TriColor>(*w, *h, seed, rep),
-            Kind::Oct => var_case::<OctColor>(*w, *h, seed, rep),
+            Kind::Bw => var_case::<Color>(*w, *h, seed, miri, rep),
+            Kind::Tri => var_case::<TriColor>(*w, *h, seed, miri, rep),
+            Kind::Oct => var_case::<OctColor>(*w, *h, seed, miri, rep),
         },
     });
     rep.count("cases", cases.len() as u64);
@@ -1081,7 +1096,7 @@ pub fn run(ctx: &Ctx) -> Report {
     rep.note("VarDisplay backing slices start with seeded random bytes (so cleared bits are observable); alias buffers are first painted with a seeded random colour per pixel through one draw_iter call that is itself checked");
     rep.note("tag w%8!=0 marks VarDisplay<TriColor> geometries with w%8 in 1..=4, the widths for which ceil(2w/8) != 2*ceil(w/8); widths with w%8 in 5..=7 size correctly and get ordinary tags");
     if miri {
-        rep.note("mode miri: aliases skipped, VarDisplay w,h in 1..=10, single thread");
+        rep.note("mode miri: aliases skipped, VarDisplay w,h in 1..=10, single thread; coordinate extremes on 5 geometries per colour type, bwrbit=true only for TriColor, and of the VarDisplay<TriColor> geometries with w%8 in 1..=4 (known mis-sizing, every failing call is a caught panic costing ~0.1 s under Miri) only w in {1,4,9} x h in {1,3,10}");
     }
     rep
 }
